@@ -3,6 +3,7 @@ package props
 import (
 	"fmt"
 	"io"
+	"math"
 
 	"github.com/kstenerud/go-concise-encoding/ce"
 	"pgregory.net/rapid"
@@ -31,16 +32,20 @@ type C28Case struct {
 	Note        string `json:"note,omitempty"`
 	// MaxDoc: Rules.MaxDocumentSizeBytes for both sides (0 = default 5 GB): the size accounting must
 	// not depend on how the bytes arrive either
+	// negative: the huge settings someone writes for "no limit" (-1 = 2^64-1, -2 = 2^63, -3 = 2^63-1)
 	MaxDoc int `json:"max_doc,omitempty"`
+	// TrailingZeroReads: reads that return (0, nil) after the last data byte, before the reader reports io.EOF
+	TrailingZeroReads int `json:"trailing_zero_reads,omitempty"`
 }
 
 // schedReader delivers data according to a cyclic schedule of read sizes.
 type schedReader struct {
-	data        []byte
-	pos         int
-	sched       []int
-	i           int
-	eofWithData bool
+	data         []byte
+	pos          int
+	sched        []int
+	i            int
+	eofWithData  bool
+	trailingZero int
 	// statistics
 	reads, shortReads, zeroReads int
 	dataWithEOF                  bool
@@ -49,6 +54,11 @@ type schedReader struct {
 func (r *schedReader) Read(p []byte) (int, error) {
 	r.reads++
 	if r.pos >= len(r.data) {
+		if r.trailingZero > 0 && !r.dataWithEOF && len(p) > 0 {
+			r.trailingZero--
+			r.zeroReads++
+			return 0, nil
+		}
 		return 0, io.EOF
 	}
 	if len(p) == 0 {
@@ -174,6 +184,12 @@ func genC28(t *rapid.T, ctx *Ctx) interface{} {
 	if c.MaxDoc < 0 {
 		c.MaxDoc = 0
 	}
+	if rapid.IntRange(0, 9).Draw(t, "maxdoc.huge") == 0 {
+		c.MaxDoc = -rapid.IntRange(1, 3).Draw(t, "maxdoc.which")
+	}
+	if rapid.IntRange(0, 3).Draw(t, "trailingZero") == 0 {
+		c.TrailingZeroReads = rapid.IntRange(1, 2).Draw(t, "trailingZero.n")
+	}
 	return c
 }
 
@@ -216,7 +232,11 @@ func init() {
 			if c.MaxDoc > 0 {
 				cfg.Rules.MaxDocumentSizeBytes = uint64(c.MaxDoc)
 				ctx.Label("small MaxDocumentSizeBytes")
+			} else if c.MaxDoc < 0 {
+				cfg.Rules.MaxDocumentSizeBytes = map[int]uint64{-1: math.MaxUint64, -2: 1 << 63, -3: 1<<63 - 1}[c.MaxDoc]
+				ctx.Label("huge MaxDocumentSizeBytes (2^63-1 .. 2^64-1)")
 			}
+			ctx.LabelIf(c.TrailingZeroReads > 0, "empty reads between the last byte and EOF")
 			tmpl := c27Template(c.Tmpl)
 			doc := func() []byte { return append([]byte{}, c.Doc...) }
 			universal := c.Entry == "unmarshal-ce" || c.Entry == "decode-ce"
@@ -270,7 +290,7 @@ func init() {
 			ctx.LabelIf(merr != nil, "memory-rejects")
 
 			// ---- the same bytes through the scheduled reader
-			rd := &schedReader{data: doc(), sched: c.Sched, eofWithData: c.EOFWithData}
+			rd := &schedReader{data: doc(), sched: c.Sched, eofWithData: c.EOFWithData, trailingZero: c.TrailingZeroReads}
 			var sres interface{}
 			var serr error
 			var sevs []ev.Event
